@@ -89,6 +89,9 @@ if __name__ == "__main__":
         wt = sys.argv[3]
         for x in (sys.argv[4:] or ["A", "B"]):
             print(json.dumps(verify(pid, x, src="/tmp/wt2/%s/out" % wt, name=pid + "r2" + wt[3:])))
+    elif len(sys.argv) > 2 and sys.argv[2] == "--round3":
+        for x in (sys.argv[3:] or ["A", "B"]):
+            print(json.dumps(verify(pid, x, src="/tmp/wt3/%s/out" % pid, name=pid + "r3")))
     else:
         for x in (sys.argv[2:] or ["A", "B"]):
             print(json.dumps(verify(pid, x)))
